@@ -255,17 +255,25 @@ func RunShards(r *Result, n int, extraArgs []string, perWorkerTimeout time.Durat
 			}
 			go func() { done <- cmd.Wait() }()
 			var werr error
+			deadline := false
 			select {
 			case werr = <-done:
 			case <-time.After(perWorkerTimeout):
 				cmd.Process.Kill()
 				<-done
 				werr = fmt.Errorf("worker deadline %v exceeded", perWorkerTimeout)
+				deadline = true
 			}
 			b, rerr := os.ReadFile(out)
 			if werr != nil || rerr != nil {
 				j, _ := os.ReadFile(journal)
 				r.NotExhaustive(fmt.Sprintf("worker %d died: %v", i, werr))
+				if deadline || (werr != nil && strings.Contains(werr.Error(), "signal: killed")) {
+					// stopped from outside (our own deadline on a slow machine, or the kernel's
+					// out-of-memory killer): the run is incomplete, nothing is known about the property
+					fmt.Fprintf(os.Stderr, "worker %d stopped from outside (%v) near {%s}\n", i, werr, strings.TrimSpace(string(j)))
+					return
+				}
 				if onDeath != nil {
 					onDeath(i, eb.String(), string(j))
 				} else {
